@@ -107,6 +107,9 @@ def run(spec, setup=None, readonly=False, label=None, built=None,
             try:
                 rec.res = problems.call_minimize(rec.built, **over)
             except BaseException as exc:  # noqa: BLE001 - outcome monitor
+                if isinstance(exc, KeyboardInterrupt) or \
+                        type(exc).__name__ == "_CaseTimeout":
+                    raise      # the harness' own watchdog, not an outcome
                 rec.exc = exc
     rec.stdout_chars = len(sink.getvalue())
     rec.wall = time.perf_counter() - t0
